@@ -49,7 +49,13 @@ BaseTexts == <<
         <<P!X_Field(P!NoAttrs, "pub", "a", U("u8")), P!X_Field(P!NoAttrs, "pub", "w", U("u32"))>>)),
       P!It("impl", P!X_Impl(P!NoAttrs, "T",
         <<P!X_Func(AG(<<P!X_AFn("address", <<I(8192)>>), P!X_AFn("calling_convention", <<P!X_EStr("cdecl")>>)>>),
-                   "pub", "g", <<P!X_SelfC, P!X_Arg("k", U("u32"))>>, U("u32"))>>))>>)
+                   "pub", "g", <<P!X_SelfC, P!X_Arg("k", U("u32"))>>, U("u32"))>>))>>),
+  (* 4: an empty vftable block still stands for the pointer: implicitly placed fields come after it *)
+  P!X_Mod(P!NoAttrs,
+    <<P!It("def", P!X_Type(P!NoAttrs, "pub", "T",
+        <<P!X_Vft(P!NoAttrs, <<>>),
+          P!X_Field(P!NoAttrs, "pub", "a", P!X_CPtr(U("u8"))),
+          P!X_Field(AG(<<P!X_AFn("address", <<I(24)>>)>>), "pub", "c", U("u64"))>>))>>)
 >>
 
 Alpha == <<P!Pu("#"), P!Pu("["), P!Pu("]"), P!Pu("("), P!Pu(")"), P!Pu(","), P!Pu(":"), P!Pu("_"), P!Kw("pub"),
